@@ -19,6 +19,13 @@
  * one byte outside.  The kind of variable a slot number refers to follows the dispatch order
  * of spifopt_parse(): BOOLEAN, STRING, INTEGER, ARGLIST, ABSTRACT (else: an unused byte).
  *
+ *             spell <...same eight fields...> <argv> <spellings>: as parse; the spelling list is for the
+ *             model driver, which answers with the ideal reading; argv is printed up to its first NULL
+ *             numwords <hex> / getword <k> <hex> / strtol <hex>: the helpers behind handle_arglist and
+ *             handle_integer, compared with their sub-models directly
+ *
+ * A case that runs longer than a second is killed by SIGALRM (reported as a fault by lib/vlib.py).
+ *
  * output:  <ok|help> bad=N helps=N fl=N B=x,x,x,x I=d,d,d,d S=s,s,s,s L=l,l,l,l A=log argv=a,a,...
  */
 #include "common.h"
